@@ -3,7 +3,7 @@
 From Coq Require Import String.
 From Coq Require Import List Arith ZArith.
 Import ListNotations.
-From YP Require Import Base.Str Term.Term Unify.Unify Unify.Mgu Unify.Rename Unify.Base.
+From YP Require Import Base.Str Term.Term Unify.Unify Unify.Mgu Unify.Rename Unify.Base Unify.UnifyGen.
 
 (* "started under any stack of already active bindings" = any acyclic store s (wf s);
    "at the yield both terms dereference to the same term": den s' t1 = den s' t2 where
@@ -75,6 +75,23 @@ Theorem C02_unify_increment : forall n s a b, wf s ->
   unify n s a b = lift s (unify n [] (den s a) (den s b)).
 Proof. exact unify_increment. Qed.
 Print Assumptions C02_unify_increment.
+
+(* "yields at most once": on the generator-object model of unify (Unify/UnifyGen.v: a mutable heap,
+   generator objects with try/finally unbinding, held sub-generators of unify_arrays), whatever sequence of
+   next/close/drop operations the consumer performs, at most one of the nexts yields *)
+Theorem C02_unify_yields_at_most_once : forall n h t1 t2 ops hf gf ys,
+  drive n h (mk_unify h t1 t2) ops = Some (hf, gf, ys) -> count_true ys <= 1.
+Proof. exact unify_gen_yields_at_most_once. Qed.
+Print Assumptions C02_unify_yields_at_most_once.
+
+(* the generator object realises the store-passing algorithm the theorems above are about: it yields exactly
+   when unify succeeds, the heap at the yield is the result store, closing it there gives back the heap *)
+Theorem C02_generator_is_unify : forall n h t1 t2, wf h ->
+  (forall s', unify n h t1 t2 = UOk s' ->
+     exists g1, next n h (mk_unify h t1 t2) = Some (s', g1, true) /\ fst (close s' g1) = h) /\
+  (unify n h t1 t2 = UFail -> exists g1, next n h (mk_unify h t1 t2) = Some (h, g1, false)).
+Proof. exact unify_gen_matches_unify. Qed.
+Print Assumptions C02_generator_is_unify.
 
 (* non-vacuity: a store with two active bindings is wf, and a unification under it succeeds *)
 Example C02_nonvacuous :
